@@ -150,7 +150,7 @@ class Ref:
         t = self.typ
         if op == 'free':
             return 'free'
-        if op in ('first', 'size', 'setsize'):
+        if op in ('first', 'size', 'setsize') or (op == 'next' and getattr(self, 'ended', False)):
             return 'none'
         if op == 'clear':
             return 'vclear' if t == 'vec' else ('none' if t == 'harr' else 'clear')
@@ -284,12 +284,21 @@ class Ref:
             return ('harr', len(self.d))
 
     def apply(self, op, a):
+        r = self.apply1(op, a)
+        if op == 'next' and r == 'false':
+            self.ended = True
+        return r
+
+    def apply1(self, op, a):
         """a: list of decoded args (bytes or int). Returns expected result string, or None when unspecified."""
         t = self.typ
         hx = hexs
         if op == 'first':
             self.cur = None
+            self.ended = False
             return 'ok'
+        if op == 'next' and getattr(self, 'ended', False):
+            return 'false'                              # after the end every further call reports the end until the cursor is zeroed
         if op == 'free':
             self.alive = False
             return 'freed'
@@ -300,6 +309,7 @@ class Ref:
         if op == 'clear':
             if t in ('tree', 'hash', 'harr'):
                 self.d = {}
+                self.chains = {}
             else:
                 self.l = []
             return 'ok'
@@ -639,7 +649,8 @@ def gen_tree(rng, quick):
             H.append(Hist('tree', [opt], pre, t, tail, 'tree/%s' % name))
         # getnext in mid-walk
         if len(ks) >= 3:
-            H.append(Hist('tree', [opt], pre + ['first', 'next', 'next'], 'next', tail, 'tree/%s/midwalk' % name))
+            H.append(Hist('tree', [opt], pre + ['first', 'next', 'next'], 'next', ['next', 'next'] + tail, 'tree/%s/midwalk' % name))
+        H.append(Hist('tree', [opt], pre + ['first'], 'next', ['next', 'next', 'next'] + tail, 'tree/%s/retry' % name))
     return H
 
 
@@ -665,7 +676,8 @@ def gen_hash(rng, quick):
             for t in tg:
                 H.append(Hist('hash', [rg, opt], pre, t, tail, 'hash/r%d/n%d' % (rg, n)))
             if len(ks) >= 3:
-                H.append(Hist('hash', [rg, opt], pre + ['first', 'next', 'next'], 'next', tail, 'hash/r%d/n%d/midwalk' % (rg, n)))
+                H.append(Hist('hash', [rg, opt], pre + ['first', 'next', 'next'], 'next', ['next', 'next'] + tail, 'hash/r%d/n%d/midwalk' % (rg, n)))
+            H.append(Hist('hash', [rg, opt], pre + ['first'], 'next', ['next', 'next', 'next'] + tail, 'hash/r%d/n%d/retry' % (rg, n)))
     return H
 
 
@@ -692,7 +704,8 @@ def gen_ltbl(rng, quick):
             for t in tg:
                 H.append(Hist('ltbl', [opt], pre, t, tail, 'ltbl/o%d/n%d' % (opt, n)))
             if n >= 3:
-                H.append(Hist('ltbl', [opt], pre + ['first', 'next', 'next'], 'next', tail, 'ltbl/o%d/n%d/midwalk' % (opt, n)))
+                H.append(Hist('ltbl', [opt], pre + ['first', 'next', 'next'], 'next', ['next', 'next'] + tail, 'ltbl/o%d/n%d/midwalk' % (opt, n)))
+            H.append(Hist('ltbl', [opt], pre + ['first'], 'next', ['next', 'next', 'next'] + tail, 'ltbl/o%d/n%d/retry' % (opt, n)))
     return H
 
 
@@ -711,7 +724,8 @@ def gen_list(rng, quick):
         for t in tg:
             H.append(Hist('list', [opt], pre, t, tail, 'list/n%d' % n))
         if n >= 3:
-            H.append(Hist('list', [opt], pre + ['first', 'next', 'next'], 'next', tail, 'list/n%d/midwalk' % n))
+            H.append(Hist('list', [opt], pre + ['first', 'next', 'next'], 'next', ['next', 'next'] + tail, 'list/n%d/midwalk' % n))
+        H.append(Hist('list', [opt], pre + ['first'], 'next', ['next', 'next', 'next'] + tail, 'list/n%d/retry' % n))
     # bounded list
     H.append(Hist('list', [0], ['setsize 2', 'addat 0 01', 'addat 0 02'], 'addat 0 03', ['size', 'popat 0', 'addat 0 04'], 'list/bounded'))
     return H
@@ -740,6 +754,7 @@ def gen_vec(rng, quick):
                         tg += ['addat %d %s' % (i, hexs(val(32, osz))), 'getat %d' % i, 'popat %d' % i]
                     for t in tg:
                         H.append(Hist('vec', [mx, osz, opt], pre, t, tail, 'vec/o%d/s%d/m%d/n%d' % (opt, osz, mx, n)))
+                    H.append(Hist('vec', [mx, osz, opt], pre + ['first'], 'next', ['next', 'next', 'next'] + tail, 'vec/o%d/s%d/m%d/n%d/retry' % (opt, osz, mx, n)))
     return H
 
 
@@ -783,7 +798,8 @@ def gen_harr(rng, quick):
             for t in tg:
                 H.append(Hist('harr', [slots], pre, t, tail, 'harr/s%d/n%d' % (slots, n)))
             if n >= 2:
-                H.append(Hist('harr', [slots], pre + ['first', 'next'], 'next', tail, 'harr/s%d/n%d/midwalk' % (slots, n)))
+                H.append(Hist('harr', [slots], pre + ['first', 'next'], 'next', ['next', 'next'] + tail, 'harr/s%d/n%d/midwalk' % (slots, n)))
+            H.append(Hist('harr', [slots], pre + ['first'], 'next', ['next', 'next', 'next'] + tail, 'harr/s%d/n%d/retry' % (slots, n)))
     return H
 
 
@@ -834,61 +850,64 @@ def opkind(line):
     return line.split()[0]
 
 
-def monitor(h, recs, want):
-    """Evaluate the properties on one history. want: set of property ids to evaluate ('C15', 'C11', 'C12').
-    Returns list of (pid, signature, title, failing line index)."""
+def monitor(h, recs):
+    """Evaluate the three properties on one history. Returns list of (pids, signature, title, failing line index)."""
     out = []
     lines = [l for l in h.lines() if not l.startswith('fail')]
     ref = None
     ti = h.target_index()
     injk = h.inject
     tkind = 'new' if h.target == 'new' else opkind(h.target)
+    MEM = {'C11', 'C15'} if injk else {'C11'}
+    STATE = {'C15'} if injk else {'C11', 'C12'}
+    CONTENT = {'C15'} if injk else {'C12'}
 
-    def sig(pid, observed, i, **kw):
+    def sig(pids, observed, i, **kw):
         s = {'container': h.typ, 'op': opkind(lines[i]) if i < len(lines) else '?', 'observed': observed}
         if injk:
             s['injected_op'] = tkind
             s['alloc'] = injk[1]
             s['mode'] = injk[0]
         s.update(kw)
-        out.append((pid, s, '%s %s: %s%s' % (h.typ, s['op'], observed, (' after %s %d in %s' % (injk[0], injk[1], tkind)) if injk else ''), i))
+        out.append((set(pids), s, '%s %s: %s%s' % (h.typ, s['op'], observed, (' after %s %d in %s' % (injk[0], injk[1], tkind)) if injk else ''), i))
     for i, (l, d) in enumerate(zip(lines, recs)):
         w = l.split()
         op = w[0]
         if 'abort' in d:
             if d['abort'] in ('CRASH', 'TIMEOUT'):
-                sig('C15' if injk else 'C11', d['abort'].lower(), i, request=d.get('nreq', 0))
+                sig(MEM, d['abort'].lower(), i, request=d.get('nreq', 0))
+            elif d['abort'] != 'DEAD':
+                sig(MEM, 'harness-output-missing', i)
             break
         if op == 'new':
             ref = Ref(h.typ, h.newargs) if d['r'] == 'obj' else None
         injected_here = bool(d['inj'])
         failed = d['rep'] == 'fail'
-        P = 'C15' if injk else 'C11'
         # -- C15 oracle: failure => unchanged; success => correct; always valid
         if d['B'] != 'same':
             if injected_here and failed:
-                sig('C15', 'changed-on-failure', i)
+                sig({'C15'}, 'changed-on-failure', i)
             elif i >= ti and injk:
-                sig('C15', 'state-differs-from-reference' if i == ti else 'later-state-differs', i)
+                sig({'C15'}, 'state-differs-from-reference' if i == ti else 'later-state-differs', i)
             else:
-                sig(P, 'state-differs-from-reference', i)
+                sig(STATE, 'state-differs-from-reference', i)
         if d['chk'] != 0:
-            sig(P, 'invalid-structure', i, check=d['chk'])
+            sig(MEM | STATE, 'invalid-structure', i, check=d['chk'])
         if d['resdiff'] is not None:
-            sig(P, 'incorrect-completion' if injected_here else ('later-result-differs' if injk and i > ti else 'result-differs-from-reference'), i)
+            sig(STATE, 'incorrect-completion' if injected_here else ('later-result-differs' if injk and i > ti else 'result-differs-from-reference'), i)
         if d['lock'] != 0:
-            sig('C15' if injk else 'C11', 'lock-held', i, delta=d['lock'])
+            sig(MEM, 'lock-held', i, delta=d['lock'])
         if d['leak']:
-            sig(P, 'leak', i)
+            sig(MEM, 'leak', i)
         if d['leakB']:
-            sig('C11', 'leak-reference', i)
+            sig({'C11'}, 'leak-reference', i)
         for fl, n in d['flags'].items():
             if fl == 'returned-copy-changed':
-                sig('C12', fl, i)
+                sig({'C12'}, fl, i)
             elif fl in ('freed-returned', 'wrote-returned'):
-                sig('C12', fl, i)
+                sig({'C12', 'C11'}, fl, i)
             else:
-                sig(P, fl, i)
+                sig(MEM, fl, i)
         # -- plain reference: contents and results, byte for byte (C12 content part; C15 "completes correctly")
         if ref is not None and op != 'new':
             applied = not (injected_here and failed)
@@ -903,14 +922,14 @@ def monitor(h, recs, want):
                 else:
                     exp = ref.apply(op, decode_args(h.typ, op, w[1:]))
                 if exp is not None and exp != d['r'] and op != 'free':
-                    sig('C12' if not injk else 'C15', 'wrong-result', i, expected=exp[:60])
+                    sig(CONTENT, 'wrong-result', i, expected=exp[:60])
             if op != 'free' and d['A'] != 'none':
                 got = parse_dump(h.typ, d['A'])
                 if got != ref.contents():
-                    sig('C12' if not injk else 'C15', 'wrong-contents', i)
+                    sig(CONTENT, 'wrong-contents', i)
                     break
         if op == 'free' and d['own']:
-            sig('C11', 'owned-after-free', i)
+            sig({'C11'}, 'owned-after-free', i)
     return out
 
 
@@ -1041,3 +1060,224 @@ def run_model(ctx, pairs, sizes, timeout=900, nproc=None):
     with ThreadPoolExecutor(nproc) as ex:
         list(ex.map(one, chunks))
     return res
+
+
+# ------------------------------------------------------------------ random histories (C11 / C12: "every operation history")
+def rand_hist(rng, typ, nops):
+    """a random history on one container: small key universe so that replacements, removals of present keys, duplicates dominate"""
+    def v():
+        return hexs(val(rng.randrange(12), rng.choice([None, None, 1, 2, 5, 17, 64, 200])))
+    ops = []
+    if typ == 'tree':
+        new = [rng.choice([0, 1])]
+        for _ in range(nops):
+            k = hexs(tkey(rng.randrange(12)))
+            ops.append(rng.choices(['put %s %s' % (k, rng.choice([v(), v(), '-'])), 'get ' + k, 'remove ' + k, 'min', 'max', 'first', 'next', 'near ' + k, 'clear', 'size'],
+                                   weights=[30, 12, 14, 3, 3, 3, 12, 5, 0.7, 2])[0])
+    elif typ == 'hash':
+        new = [rng.choice([0, 1, 2, 5]), rng.choice([0, 1])]
+        for _ in range(nops):
+            k = hexs(skey(rng.randrange(14)))
+            ops.append(rng.choices(['put %s %s' % (k, rng.choice([v(), v(), '-'])), 'get ' + k, 'remove ' + k, 'first', 'next', 'clear', 'size'], weights=[30, 12, 14, 3, 12, 0.7, 2])[0])
+    elif typ == 'ltbl':
+        new = [rng.choice([0, 1, 2, 3, 4, 8, 16, 2 | 16, 4 | 8, 2 | 4 | 8 | 16, rng.randrange(32)])]
+        for _ in range(nops):
+            k = hexs(rng.choice([skey(rng.randrange(5)), b'Dup', b'dup', b'DUP']))
+            ops.append(rng.choices(['put %s %s' % (k, v()), 'get ' + k, 'getmulti ' + k, 'remove ' + k, 'first', 'next', 'clear', 'size'], weights=[34, 10, 8, 8, 3, 12, 0.7, 2])[0])
+    elif typ == 'list':
+        new = [rng.choice([0, 1])]
+        for _ in range(nops):
+            i = rng.choice([0, -1, 1, -2, rng.randrange(-12, 13)])
+            ops.append(rng.choices(['addat %d %s' % (i, v()), 'getat %d' % i, 'popat %d' % i, 'removeat %d' % i, 'toarray', 'tostring', 'reverse', 'first', 'next', 'clear', 'size'],
+                                   weights=[34, 10, 10, 8, 3, 3, 3, 2, 10, 0.7, 2])[0])
+    elif typ == 'vec':
+        osz = rng.choice([1, 2, 3, 8, 16])
+        new = [rng.choice([0, 1, 2, 4]), osz, rng.choice([2, 3, 4, 5, 8, 9])]
+        for _ in range(nops):
+            i = rng.choice([0, -1, 1, rng.randrange(-10, 11)])
+            e = hexs(val(rng.randrange(12), osz))
+            ops.append(rng.choices(['addat %d %s' % (i, e), 'addlast ' + e, 'addfirst ' + e, 'setat %d %s' % (i, e), 'getat %d' % i, 'popat %d' % i, 'removeat %d' % i,
+                                    'resize %d' % rng.randrange(0, 9), 'reverse', 'toarray', 'first', 'next', 'clear', 'size'],
+                                   weights=[14, 16, 6, 6, 8, 8, 8, 3, 3, 3, 2, 8, 0.7, 2])[0])
+    elif typ in ('queue', 'stack'):
+        new = [rng.choice([0, 1])]
+        for _ in range(nops):
+            i = rng.choice([0, -1, 1, rng.randrange(-6, 7)])
+            ops.append(rng.choices(['push ' + v(), 'pushstr 616263', 'pushint %d' % rng.randrange(-5, 1000), 'pop', 'popat %d' % i, 'get', 'getat %d' % i, 'clear', 'size'],
+                                   weights=[30, 5, 5, 14, 8, 8, 8, 0.7, 2])[0])
+    elif typ == 'grow':
+        new = [rng.choice([0, 1])]
+        for _ in range(nops):
+            ops.append(rng.choices(['add ' + v(), 'addstr 616263', 'toarray', 'tostring', 'clear', 'size'], weights=[30, 8, 6, 6, 0.7, 2])[0])
+    else:
+        new = [rng.choice([8, 16, 32])]
+        for _ in range(nops):
+            k = hexs(skey(rng.randrange(6)))
+            ops.append(rng.choices(['put %s %s' % (k, v()), 'get ' + k, 'remove ' + k, 'first', 'next', 'clear', 'size'], weights=[20, 14, 8, 3, 10, 0.5, 2])[0])
+    # a walk is only meaningful on an unmodified container (the cursor points into it): restart it after every modification
+    fixed, dirty = [], True
+    for o in ops:
+        k = o.split()[0]
+        if k == 'next' and dirty:
+            fixed.append('first')
+            dirty = False
+        if k not in ('get', 'getat', 'getmulti', 'min', 'max', 'size', 'toarray', 'tostring', 'first', 'next'):
+            dirty = True                      # (find_nearest: continuing after it is specified only when no walk is unfinished - C04)
+        fixed.append(o)
+    ops = fixed
+    h = Hist(typ, new, ops[:-1], ops[-1], [], 'random/%s' % typ)
+    return h
+
+
+def random_hists(rng, n, nops):
+    types = ['tree', 'hash', 'ltbl', 'list', 'vec', 'queue', 'stack', 'grow', 'harr']
+    return [rand_hist(rng, types[i % len(types)], rng.randrange(nops // 3, nops + 1)) for i in range(n)]
+
+
+def rand_inject(rng, h, recs):
+    """a copy of a (random) history in which one allocating op is hit by an injected failure"""
+    lines = [l for l in h.lines() if not l.startswith('fail')]
+    cand = [i for i, d in enumerate(recs) if 'nreq' in d and d['nreq'] > 0 and 0 < i < len(lines) - 1]
+    if not cand:
+        return None
+    i = rng.choice(cand)
+    k = rng.randrange(1, recs[i]['nreq'] + 1)
+    body = lines[1:-1]
+    g = Hist(h.typ, h.newargs, body[:i - 1], body[i - 1], body[i:], h.label + '/injected')
+    g.inject = (rng.choice(['fail', 'failfrom']), k)
+    return g
+
+
+# ------------------------------------------------------------------ sanitizer build (failing-input search engine, thorough tier)
+def run_asan(ctx, exe, hists, pid, timeout=1800):
+    """run histories through the ASan+UBSan+LSan build; a sanitizer report is a concrete failing input"""
+    nproc = min(NCPU, 8)
+    chunks = [hists[i::nproc] for i in range(nproc)]
+    found = []
+    env = dict(os.environ, ASAN_OPTIONS='detect_leaks=1:abort_on_error=0:exitcode=23:allocator_may_return_null=1', UBSAN_OPTIONS='print_stacktrace=0')
+    results = []
+
+    def one(ch):
+        todo = list(ch)
+        res = []
+        rounds = 0
+        while todo and rounds < 6:
+            rounds += 1
+            data = '\n'.join('\n'.join(h.lines()) for h in todo) + '\n'
+            rc, o, e = ctx.run([exe], inp=data.encode(), timeout=timeout, env=env)
+            out = o.decode('latin1').splitlines()
+            out = out[1:] if out and out[0].startswith('sizes') else out
+            p = 0
+            done = 0
+            for h in todo:
+                n = len([l for l in h.lines() if not l.startswith('fail')])
+                if p + n > len(out):
+                    break
+                res.append((h, [parse_line(l) for l in out[p:p + n]]))
+                p += n
+                done += 1
+            if rc == 0 and done == len(todo):
+                break
+            err = e.decode('latin1')
+            m = re.search(r'(ERROR: AddressSanitizer: [\w-]+|ERROR: LeakSanitizer: [\w ]+|runtime error: [^\n]{0,80})', err)
+            kind = m.group(1) if m else 'exit %s' % rc
+            if done < len(todo):
+                bad = todo[done]
+                found.append((bad, kind, err[-1500:], len(out) - p))
+                todo = todo[done + 1:]
+            else:                                     # report at exit (LeakSanitizer): some history of this chunk leaked
+                found.append((todo[-1], kind, err[-1500:], -1))
+                break
+        return res
+    with ThreadPoolExecutor(nproc) as ex:
+        parts = list(ex.map(one, chunks))
+    return [x for p in parts for x in p], found
+
+
+# ------------------------------------------------------------------ the check
+def record(ctx, h, recs):
+    for l, d in zip([x for x in h.lines() if not x.startswith('fail')], recs):
+        if 'abort' in d:
+            ctx.count('aborted-ops')
+            continue
+        op = l.split()[0]
+        ctx.cov['evaluations'] += 1
+        ctx.count('op:%s/%s' % (h.typ, op))
+        if d['inj']:
+            ctx.count('injected:%s/%s/%s' % (h.typ, op, d['rep']))
+        if d['rep'] == 'fail':
+            ctx.count('reports-failure')
+        ctx.count('allocation-requests', d['nreq'])
+        if d['lock'] == 0:
+            ctx.count('calls-with-lock-depth-delta-0')
+        ctx.distinct.add((h.typ, op, d['rep'], d['inj'], len(d['ev']), hash(d['A']) & 0xffff))
+
+
+def evaluate(ctx, exe, hists, pid, asan=False, do_model=True):
+    """run, monitor, compare with the model; returns the (hist, recs, sizes) list"""
+    res = run_hists(ctx, exe, hists)
+    good = []
+    sizes = ''
+    for h, recs, sz in res:
+        sizes = sz or sizes
+        if h is None:
+            ctx.broken.append(('correspondence:harness', recs))
+            continue
+        good.append((h, recs))
+        record(ctx, h, recs)
+        for pids, sg, title, i in monitor(h, recs):
+            if pid in pids:
+                sg = dict(sg)
+                sg.pop('expected', None)
+                narrow = {k: v for k, v in sg.items() if k not in ('alloc',)}
+                ctx.report('impl-vs-property', narrow, title, {'ops': h.lines(), 'failing_line': i, 'observed': recs[i].get('raw', '')[:600] if i < len(recs) else '',
+                                                              'signature_full': sg})
+    if do_model and good:
+        ml = run_model(ctx, good, sizes)
+        nbad = 0
+        for (h, recs), m in zip(good, ml):
+            if m is None:
+                continue
+            c = compare_model(h, recs, m, asan=asan)
+            ctx.count('traces-compared-with-model')
+            if c:
+                nbad += 1
+                if nbad <= 3:
+                    lines = [l for l in h.lines() if not l.startswith('fail')]
+                    ctx.broken.append(('correspondence:ledger-%s-%s' % (h.typ, lines[c[0]].split()[0] if c[0] < len(lines) else '?'),
+                                       'implementation and allocation script disagree (%s) at line %d of\n  %s\n  impl : %s\n  model: %s' % (c[1], c[0], ' ; '.join(h.lines()), c[2], c[3])))
+        ctx.count('model-mismatches', nbad)
+    return good, sizes
+
+
+def sample_hist(ctx, h, recs, limit=4):
+    if len(ctx.cov['samples']) < limit:
+        ctx.sample({'history': ' ; '.join(h.lines())[:600], 'target_line': recs[h.target_index()]['raw'][:500] if h.target_index() < len(recs) else ''}, limit)
+
+
+def gcov_report(ctx, name):
+    g = {}
+    for src, funcs in ANCHORS.items():
+        r = ctx.gcov(name, src, funcs)
+        for f, v in r.items():
+            g['%s:%s' % (src.split('/')[-1], f)] = v
+    return g
+
+
+def replay(ctx, exe, path, pid):
+    d = json.load(open(path))
+    r = d.get('replay', {})
+    ops = r.get('ops')
+    if not ops:
+        print('replay file names no ops (obligation-level finding): ' + json.dumps(d.get('broken', d), indent=1)[:2000])
+        return
+    new = [l for l in ops if l.startswith('new')][0].split()
+    h = Hist(new[1], [int(x) for x in new[2:]], [], 'new', [], 'replay')
+    h.lines = lambda: ops
+    h.target_index = lambda: r.get('failing_line', 0)
+    inj = [l.split() for l in ops if l.startswith('fail')]
+    h.inject = (inj[0][0], int(inj[0][1])) if inj else None
+    good, sizes = evaluate(ctx, exe, [h], pid)
+    for (hh, recs) in good:
+        for l, dd in zip([x for x in ops if not x.startswith('fail')], recs):
+            print('op   : %s\nimpl : %s' % (l, dd.get('raw', '')[:700]))
